@@ -161,4 +161,35 @@ def canonPremisesB (cfg : Config) (alnum : Bytes → Bool) (s : Bytes) : Bool :=
         | none => false
         | some (_, sols) => allWritten pw.2.1 (writtenBefore pw.2.1 pw.2.2) pw.2.2.length sols)
 
+/-! ### the layout premises without the checked "free tokens are broken" (proved: Proofs/SearchMustBreak.lean) -/
+
+/-- no free token (`freeAtB`) is among the tokens whose counters are final before the wrapper stage (`writtenBefore`:
+    verbatim tokens and the end-of-file token written by the end-of-file rule) -/
+def freeNotBeforeB (lines : List Line) (ft : FT) : Bool :=
+  (List.range ft.length).all fun j => !(freeAtB ft j && writtenBefore lines ft j)
+
+/-- `freeBrokenB` restricted to the tokens the search never writes (`writtenBefore`: verbatim tokens and the end-of-file
+    token written by the end-of-file rule): each of them that is free starts a line in `ftz`.  Implied by
+    `freeNotBeforeB` (there are none) and by `freeBrokenB` -/
+def freeBeforeBrokenB (lines : List Line) (ft ftz : FT) : Bool :=
+  ftz.zipIdx.all fun p => !(freeAtB ft p.2 && writtenBefore lines ft p.2) || decide (p.1.fmt.nl > 0)
+
+/-- `layoutPremisesB` with the premise `freeBrokenB` (a statement about what the search decided) replaced by
+    `freeBeforeBrokenB` (which only looks at tokens no solution of the search writes) -/
+def layoutPremisesB' (cfg : Config) (alnum : Bytes → Bool) (s1 s2 : Bytes) : Bool :=
+  match lex s1, lex s2 with
+  | some raw1, some raw2 =>
+    match parseAndConsolidate raw1 with
+    | none => false
+    | some po =>
+      let pw := preWrap (preO alnum po) raw1
+      (maskFlags false (raw1.map fun t => (t.kind, wsHasBreak t.ws)) ==
+          maskFlags false (raw2.map fun t => (t.kind, wsHasBreak t.ws))) &&
+      sameLayoutB po.kinds pw.1 raw1 raw2 &&
+      (match wrapStageFull cfg pw.2.1 pw.2.2 with
+        | none => false
+        | some (ftz, sols) =>
+          allWritten pw.2.1 (writtenBefore pw.2.1 pw.2.2) pw.2.2.length sols && freeBeforeBrokenB pw.2.1 pw.2.2 ftz)
+  | _, _ => false
+
 end Pasfmt
